@@ -9,7 +9,7 @@ ASSUME = [
     'opcode registry seen from the construction API: orc_opcode_find_by_name returns NULL or an entry of an 8-entry table with arbitrary contents',
     'covered: the public construction API (capacity obligations of every add_*/append_* entry point), orc_compiler_check_sizes, orc_x86_compiler_max_loop_shift; NOT covered: instruction rewriting, temporaries, register allocation, rule assignment, the emission internals of every back end, result classification of orc_compiler_compile_program (listed in coverage.functions_not_covered)',
 ]
-NOT_COVERED = ['orc_compiler_rewrite_insns', 'orc_compiler_rewrite_vars', 'orc_compiler_rewrite_vars2', 'orc_compiler_global_reg_alloc',
+NOT_COVERED = ['orc_program_add_constant_str (capacity / classification contract written, not decided: solver memory)', 'orc_compiler_rewrite_insns', 'orc_compiler_rewrite_vars', 'orc_compiler_rewrite_vars2', 'orc_compiler_global_reg_alloc',
                'orc_compiler_allocate_register', 'orc_compiler_assign_rules', 'orc_compiler_compile_program (exit states)',
                'orc_x86_compiler_init (rest)', 'all back-end emitters (mmx/sse/avx/neon/mips/altivec/c64x)']
 
@@ -32,6 +32,11 @@ def units(tier, seed, only=None):
             KK['cbmc_flags'] = []
             KK['timeout'] = 900
             KK['unwind'] = 8
+        if fn == 'orc_program_add_constant_str':
+            # not within reach: the union accesses vars[i].value.{i,f} at a symbolic slot index become byte updates over the
+            # whole OrcProgram object (dfcc form: undecided at 800 s twice; assume/assert form: 30-58 GB formula); listed
+            # under functions_not_covered, its contract stays in program_api.h as the ASSUMED contract used by C14/C15
+            continue
         us.append(core.Unit(fn, SRC, 'h_' + fn, enforce=fn, replace=rep, **KK))
     us.append(core.Unit('orc_program_find_var_by_name', SRC, 'h_orc_program_find_var_by_name', enforce='orc_program_find_var_by_name',
                         loops=[{'function': 'orc_program_find_var_by_name', 'file': 'orc/orcprogram.c', 'anchor': 'for(i=0;i<ORC_N_VARIABLES;i++){',
